@@ -21,7 +21,8 @@
 (* counts; probability = count / n with n = C * (S - b).                     *)
 EXTENDS Integers, Sequences, FiniteSets, TLC, Json, Genotypes, TraceFunctionals
 
-CONSTANT Grid      \* set of instances [kind, ps, k, c, s]
+CONSTANTS Grid,     \* set of instances [kind, ps, k, c, s]
+          ShuffleAll \* TRUE: Shuffle may rewrite any cell; FALSE: only the first and the last cell
 
 I(kind, ps, k, c, s) == [kind |-> kind, ps |-> ps, k |-> k, c |-> c, s |-> s]
 
@@ -103,10 +104,11 @@ Burn == /\ phase = "record"
 Shuffle == /\ phase = "done"
            /\ inst.kind = "hap"
            /\ \E c \in 1..inst.c, s \in 1..inst.s, q \in 1..(inst.ps[1] - 1) :
-                LET g == tr[c][s][1]
-                    h == [g EXCEPT ![q] = g[q + 1], ![q + 1] = g[q]]
-                IN  /\ h # g
-                    /\ tr' = [tr EXCEPT ![c][s] = <<h>>]
+                /\ ShuffleAll \/ <<c, s>> \in {<<1, 1>>, <<inst.c, inst.s>>}
+                /\ LET g == tr[c][s][1]
+                       h == [g EXCEPT ![q] = g[q + 1], ![q + 1] = g[q]]
+                   IN  /\ h # g
+                       /\ tr' = [tr EXCEPT ![c][s] = <<h>>]
            /\ sm' = Summaries(tr', b, lab)
            /\ UNCHANGED <<inst, phase, b, lab, space>>
 
